@@ -25,8 +25,19 @@ def main() -> int:
         return 2
     try:
         if a.replay:
-            return int(mod.replay(ctx, a.replay))
-        mod.run(ctx)
+            import json
+
+            data = json.load(open(a.replay))
+            print("replaying", a.replay, "key=", data.get("key"), flush=True)
+            print(json.dumps(data.get("replay", data), indent=1)[:4000], flush=True)
+            if hasattr(mod, "replay"):
+                mod.replay(ctx, data)  # property-specific: re-run exactly the recorded input
+            else:
+                # generic: re-run the whole check with the recorded seed and tier (deterministic from VERIF_SEED)
+                ctx = core.Ctx(a.pid, data.get("tier", a.tier), int(data.get("seed", seed)))
+                mod.run(ctx)
+        else:
+            mod.run(ctx)
     except Exception as e:  # a crash of the machinery must never pass silently
         traceback.print_exc()
         ctx.obligation("harness:crash", "harness", False, f"{type(e).__name__}: {e}")
